@@ -3,6 +3,7 @@ package interp
 // Path exploration by re-execution with decision prefixes.
 
 import (
+	"os"
 	"fmt"
 	"time"
 	"go/types"
@@ -199,21 +200,31 @@ type Explorer struct {
 	allowPanic  bool
 	ufApps      map[string][]ufApp // per uninterpreted function: applications made on this path
 	allocTotal  int64
+	where       func() string // debugging: interpreted call stack
+	facts       map[uint64][]fact
+	concreteHashes bool
+	noHashAxioms bool
 	lastRecovered string
 	cells       int64
 	allocBudget int64
 }
 
-type ufApp struct{ arg, app *Term }
+type ufApp struct {
+	arg, app *Term
+	bytes    []*Term // the input bytes (nil for digests computed concretely)
+}
 
 type pathAbort struct{ status, why string }
 type engineError struct{ msg string }
+
+var debugBranches = os.Getenv("GOSYM_DEBUG") == "branch"
 
 func (e *Explorer) reset(w workItem) {
 	e.prefix = w.prefix
 	e.pos = 0
 	e.decisions = nil
 	e.pc = nil
+	e.facts = nil
 	e.model = nil
 	if w.model != nil {
 		e.model = make(map[string]uint64, len(w.model))
@@ -237,6 +248,8 @@ func (e *Explorer) reset(w workItem) {
 	e.ufApps = map[string][]ufApp{}
 	e.allocTotal, e.allocBudget, e.cells = 0, 0, 0
 	e.lastRecovered = ""
+	e.concreteHashes = false
+	e.noHashAxioms = false
 }
 
 func sanitize(name string) string {
@@ -303,7 +316,37 @@ func (e *Explorer) record(d Decision) {
 	}
 }
 
-func (e *Explorer) addPC(c *Term) { e.pc = append(e.pc, c) }
+func (e *Explorer) addPC(c *Term) {
+	e.pc = append(e.pc, c)
+	atom, val := c, true
+	if c.op == "not" {
+		atom, val = c.args[0], false
+	}
+	if e.facts == nil {
+		e.facts = map[uint64][]fact{}
+	}
+	h := atom.hash()
+	e.facts[h] = append(e.facts[h], fact{atom, val})
+}
+
+type fact struct {
+	atom *Term
+	val  bool
+}
+
+// known reports whether the path condition contains c or its negation verbatim.
+func (e *Explorer) known(c *Term) (val, ok bool) {
+	atom, neg := c, false
+	if c.op == "not" {
+		atom, neg = c.args[0], true
+	}
+	for _, f := range e.facts[atom.hash()] {
+		if termEqual(f.atom, atom) {
+			return f.val != neg, true
+		}
+	}
+	return false, false
+}
 
 func (e *Explorer) queue(alt Decision, model map[string]uint64) {
 	p := make([]Decision, len(e.decisions)+1)
@@ -321,6 +364,11 @@ func (e *Explorer) Branch(c *Term) bool {
 	if c.isFalse() {
 		return false
 	}
+	if v, ok := e.known(c); ok {
+		// already decided earlier on this path (same condition): no decision is recorded,
+		// on replay the same lookup succeeds at the same place
+		return v
+	}
 	if e.pos < len(e.prefix) {
 		d := e.prefix[e.pos]
 		e.pos++
@@ -334,6 +382,9 @@ func (e *Explorer) Branch(c *Term) bool {
 			e.addPC(mkNot(c))
 		}
 		return d.B
+	}
+	if debugBranches && e.where != nil {
+		fmt.Fprintf(os.Stderr, "  [branch #%d] %s\n", len(e.decisions), e.where())
 	}
 	e.ensureModel()
 	take, ok := e.evaluator().evalBool(c)
